@@ -8,4 +8,5 @@ pub mod lex;
 pub mod sqlite;
 pub mod parse;
 pub mod expr_spec;
+pub mod stmt_spec;
 pub mod props;
